@@ -37,15 +37,24 @@ RULE = ('seeded designs = gen_designs.make_design + C04 structure (const exprs, 
         'common_subexp_elimination, _remove_wire_nets, _remove_slice_nets, _remove_unlistened_nets} x '
         'applications {1, 2}; plus, on every word-level design, every documented calling convention of optimize() (block= given / omitted, '
         'update_working_block True / False, skip_sanity_check, the block being / not being the working block after another design was built) '
-        'with the returned block, the untouched original, the working block and the behaviour observed; a case is distinct by (design, form, pass, reps, output trace) and non-trivial '
+        'with the returned block, the untouched original, the working block and the behaviour observed; '
+        'translator tie: folding tables, op-class strings AND the whole per-net statement list of constant_prop_check are regenerated and proved equal to the model; a case is distinct by (design, form, pass, reps, output trace) and non-trivial '
         'when the pass changed the netlist (folded / merged / removed at least one net or wire) and at least one Output varies')
 IMPORTS_SPEC = 'From PyRTL Require Import Netlist.Sem Netlist.WFDefs Netlist.SpecHarness.'
 IMPORTS_MODEL = ('From PyRTL Require Import Netlist.Sem Netlist.WFDefs Netlist.SpecHarness '
                  'Pass.Opt Pass.OptHarness.')
 COQ_TARGETS = ['theories/Netlist/SpecHarness.vo', 'theories/Pass/OptHarness.vo']
-PROPS_FILES = ['theories/Props/C04.v']
-TRUSTED = ['Pass/Opt.v: hand-written model of passes.py (tied structurally + behaviourally on every run); '
-           'Gen/ConstFold.v is regenerated from the source',
+PROPS_FILES = ['theories/Props/C04.v', 'theories/Props/C04Tie.v']
+TRUSTED = ['Pass/Opt.v: hand-written model of the pass DRIVERS of passes.py (producer-map second pass and '
+           '_remove_unused_wires of _constant_prop_pass, the shrinking loops, wire/slice/dead-net removal, the CSE '
+           'scan and replace_wires), tied structurally + behaviourally on every run.  The per-net logic of '
+           '_constant_prop_pass is NOT hand-trusted any more: Gen/ConstPropCheck.v (cp_check_src) is regenerated '
+           'statement by statement from constant_prop_check and its closures replace_net / replace_net_with_const / '
+           'replace_net_with_wire, and C04_constprop_check_tie / C04_constprop_pass_tie prove it equal to the '
+           'cp_decide / cp_apply / constant_prop_pass the preservation theorems are stated over; the folding tables '
+           'and op-class strings (Gen/ConstFold.v) are regenerated too',
+           'in the regenerated fragment: Const(bitwidth=w, val=v) stores v mod 2^w (const_encoding; C16 proves the '
+           'Const encoding), and _constant_prop_error is a no-op (the pass is called silenced, as optimize does)',
            'steady-state proviso: registers the real pass eliminates start at the value the ORIGINAL design '
            'settles them to after (#registers + 1) cycles (their compile-time constant, if they have one)']
 ASSUMPTIONS = ['the whole-pass preservation theorems (C04_optimize_preserves, C04_constant_propagation_preserves, '
